@@ -292,6 +292,38 @@ def explore(ctx, tier, search=False):
     mark("schedules")
 
 
+def confirm_failures(ctx, limit=6):
+    """Every failure was observed in this process (or in a worker forked from it) after many other requests; with
+    module-level state in pydap it may depend on them.  The replay must stand alone: re-run the smallest candidates
+    in a FRESH interpreter and prefer one that fails there; candidates that do not reproduce are pushed back."""
+    import json
+    import os
+    import subprocess
+    import sys
+    import tempfile
+
+    if not ctx.oracle_failures:
+        return
+    confirmed = 0
+    for f in sorted(ctx.oracle_failures, key=lambda d: d["size"])[:limit]:
+        with tempfile.NamedTemporaryFile("w", suffix=".json", delete=False) as tmp:
+            json.dump({"failure": f}, tmp, default=repr)
+        try:
+            p = subprocess.run([sys.executable, os.path.join(common.HARNESS, "run.py"), "C13", "--replay", tmp.name],
+                               stdout=subprocess.PIPE, stderr=subprocess.STDOUT, timeout=300, text=True)
+            reproduced = p.returncode == 1
+        except Exception:
+            reproduced = False
+        finally:
+            os.unlink(tmp.name)
+        if reproduced:
+            confirmed += 1
+            break
+        f["size"] += 10 ** 7
+        f["what"] += " (seen after other requests in the same process; did not fail in a fresh process)"
+    ctx.notes.append("replay candidates re-run in a fresh interpreter: %s" % ("one confirmed" if confirmed else "none confirmed"))
+
+
 def run(ctx):
     ctx.rule = ("requests = all response kinds x {no CE, projections incl. shorthand, hyperslabs, selections, "
                 "server-side functions, malformed} over a fixed 8-variable dataset and seeded random datasets "
@@ -312,9 +344,13 @@ def run(ctx):
     ]
     ctx.proof_phase()
     explore(ctx, ctx.tier)
+    confirm_failures(ctx)
     # failing-input search when the proof, the correspondence or the discipline broke without a wrong response yet:
     # three times the datasets, the larger targeted line-level search, the middle schedule budget (~3-5 min)
-    return ctx.finish(search=lambda c: explore(c, c.tier, search=True))
+    def search(c):
+        explore(c, c.tier, search=True)
+        confirm_failures(c)
+    return ctx.finish(search=search)
 
 
 def replay(payload):
